@@ -17,7 +17,7 @@ class Model:
     def __init__(self, parser_module, alphabet, flags, spec_grammar_text, mapping):
         self.P, self.A, self.flags, self.map = parser_module, alphabet, flags, mapping
         self.spec = R.SpecGrammar(spec_grammar_text, alphabet.names, flags["experimental_fragment_variables"])
-        self.ex = Extractor(parser_module.Parser, alphabet, flags, pre=getattr(mapping, "PRE", None))
+        self.ex = Extractor(parser_module.Parser, alphabet, flags, pre=getattr(mapping, "PRE", None), mapped=getattr(mapping, "MAP", None))
         self.auts = {}
         self.errors = {}
 
@@ -130,7 +130,8 @@ class Model:
         if w is None:
             return {"holds": True, "spec": R.show(spec_r, self.atoms_name)}
         word, side = w
-        return {"holds": False, "word": [self.letter(x) for x in word], "raw_word": word,
+        other = R.difference_witness(self.code_nfa(key, anchors), R.NFA.of_regex(spec_r), want="second" if side == "first" else "first")
+        return {"holds": False, "other_raw_word": other[0] if other else None, "word": [self.letter(x) for x in word], "raw_word": word,
                 "accepted_by": "the parser method only" if side == "first" else "the specification only", "spec": R.show(spec_r, self.atoms_name)}
 
     def p6(self, key):
